@@ -12,7 +12,7 @@ import (
 )
 
 func selfTest(verifDir string, r *Report) {
-	r.Rule("SELFTEST", "the matchers used by rules whose expected number of matches is zero fire on the positive examples of checker/testdata/fixture", 6)
+	r.Rule("SELFTEST", "the matchers used by rules whose expected number of matches is zero fire on the positive examples of checker/testdata/fixture", 7)
 	dir := filepath.Join(verifDir, "checker", "testdata", "fixture")
 	if _, err := os.Stat(dir); err != nil { // developer runs with a scratch -verif: fall back to the binary's own tree
 		if exe, err := os.Executable(); err == nil {
@@ -106,4 +106,12 @@ func selfTest(verifDir string, r *Report) {
 		}
 	}
 	check("panic/assert-sites", un == 1 && ck == 1)
+	// decoder handed the address of a pointer variable
+	dec := false
+	for _, c := range callInstrs(fn("DecodesPtr")) {
+		if dst, ok := isDecoderCall(c.Common()); ok && decodedPtrSlot(dst) != nil {
+			dec = true
+		}
+	}
+	check("decode/pointer-slot", dec)
 }
